@@ -13,6 +13,7 @@ EXPLANATION = (
     "('at or below the threshold' means up); (CC64) the sustain controller number; (F4a) note_array's 9 fields vs. its "
     "9-tuple rows; (READER) from_note_array reads only fields note_array writes; (TRACKKEY) track renumbering keys "
     "every lookup by (part index, track)."
+    ' (RESTRIKE-eq) the re-strike that ends a pedal-held note is selected with a comparison that includes the release moment itself.'
 )
 NOT_DECIDED = [
     "the pedal model itself: sounding end = first later moment the pedal is at or below the threshold (numeric)",
@@ -22,6 +23,8 @@ P = "partitura.performance"
 
 
 def run(ctx):
+    from ..rules import round6 as _R6
+    _R6.rule_restrike_at_release_counts(ctx)
     from ..rules import round5 as _R5
     _R5.rule_clock_forwarded(ctx)
     from ..rules import round5 as _R5
